@@ -10,7 +10,7 @@ from . import c07
 ID = "C14"
 RULE = ("History property.  Hypothesis draws a crystal/network, a pool of three inputs as tag dictionaries (A; B = A with other solute-vacancy "
         "and omega1/omega2 data but the same vacancy data, so the Green-function cache is hit; C independent) and a history of 3-12 "
-        "operations from {evaluate(k), scribble(previous result r, tensor t) = in-place overwrite of an array returned earlier, "
+        "operations from {evaluate(k), scribble(previous result r, tensor t) = in-place overwrite of an array returned earlier, reuse_inputs(k') = the caller overwrites in place the input arrays it passed to the last evaluation with input k', "
         "clearcache(), regenerate(N') = generate + generatematrices + generatetags (the constructor's own sequence), save/reload through an "
         "in-memory HDF5 file}.  Reference model: the value of input k on a pristine calculator of the current range that never sees the "
         "history (built once per range, outputs copied).  Oracle: every evaluate returns the reference value to 1e-12 x scale.  Non-trivial: "
@@ -24,10 +24,12 @@ CHEAP = ["SC", "BCC", "FCC", "square", "tria", "honeycomb", "B2o", "rect2", "dia
 
 @st.composite
 def op(draw):
-    kind = draw(st.sampled_from(["eval", "eval", "eval", "scribble", "scribble", "clear", "regen", "reload"]))
+    kind = draw(st.sampled_from(["eval", "eval", "eval", "scribble", "scribble", "clear", "regen", "reload", "reuse"]))
     o = {"op": kind}
     if kind == "eval":
         o["k"] = draw(st.sampled_from([0, 0, 0, 1, 2]))
+    elif kind == "reuse":
+        o["k"] = draw(st.sampled_from([2, 0, 2, 1]))   # input 2 has different vacancy data (another cache key)
     elif kind == "scribble":
         o["r"] = draw(st.sampled_from([-1, -1, -1, 0, 1, 2, 3, 5, 8]))   # -1 = the most recent result
         o["t"] = draw(st.sampled_from([0, 0, 0, 1, 2, 3]))
@@ -55,6 +57,12 @@ def cases(draw):
     C["omega1"] = [[p, float(np.round(e + 1.2, 4))] for p, e in C["omega1"]]
     C["omega2"] = [[p, float(np.round(e + 1.2, 4))] for p, e in C["omega2"]]
     hist = draw(st.lists(op(), min_size=3, max_size=12))
+    if draw(st.integers(0, 3)) == 0:
+        # a loop that refills its own input buffers and checkpoints the calculator between refill and evaluation
+        k1 = draw(st.sampled_from([0, 1, 2]))
+        k2 = 2 if k1 != 2 else draw(st.sampled_from([0, 1]))
+        at = draw(st.integers(0, len(hist)))
+        hist[at:at] = [{"op": "eval", "k": k1}, {"op": "reuse", "k": k2}, {"op": "reload"}, {"op": "eval", "k": k2}]
     return {"setup": setup, "kT": base["kT"], "member": base["member"], "pool": [A, B, C], "history": hist}
 
 
@@ -88,13 +96,16 @@ def check(case):
     N = setup["Nthermo"]
     results = []  # arrays returned to the 'caller'
     scribbled_vac = set()
-    flags = {"eval_after_scribble_same_vacancy": False, "eval_after_regen": False, "eval_after_reload": False}
+    flags = {"eval_after_scribble_same_vacancy": False, "eval_after_regen": False, "eval_after_reload": False, "inputs_rewritten_in_place": False}
     pending = {"regen": False, "reload": False}
     trace = []
+    held = None
     for step, o in enumerate(case["history"]):
         if o["op"] == "eval":
             k = o["k"] % 3
-            out = calc.Lij(*calc.preene2betafree(case["kT"], **calc.tags2preene(tags[k])))
+            args = list(calc.preene2betafree(case["kT"], **calc.tags2preene(tags[k])))
+            out = calc.Lij(*args)
+            held = (N, args)   # the caller keeps its own input buffers
             ref = reference(setup, N, tags[k], case["kT"], canon([case["pool"][k], case["kT"]]))
             scale = max(np.abs(ref[0]).max(), max(np.abs(r).max() for r in ref))
             for nm, a, b in zip(("L0vv", "Lss", "Lsv", "L1vv"), out, ref):
@@ -118,6 +129,16 @@ def check(case):
                     arr[...] = o["value"]
                     scribbled_vac.add(0 if k in (0, 1) else 1)
                     trace.append("scribble(%d,%d)" % (k, o["t"] % 4))
+        elif o["op"] == "reuse":
+            # the caller overwrites, in place, the input arrays it passed to the last evaluation with another input of the pool
+            if held is not None and held[0] == N:
+                k2 = o["k"] % 3
+                new = calc.preene2betafree(case["kT"], **calc.tags2preene(tags[k2]))
+                for a, b in zip(held[1], new):
+                    if isinstance(a, np.ndarray) and a.shape == np.shape(b) and a.flags.writeable:
+                        a[...] = b
+                flags["inputs_rewritten_in_place"] = True
+                trace.append("reuse_inputs(%d)" % k2)
         elif o["op"] == "clear":
             calc.clearcache()
             trace.append("clear")
